@@ -139,7 +139,8 @@ func parseProperType(data []byte, v reflect.Value) bool {
 	s := goutil.BytesToString(data)
 	switch v.Kind() {
 	case reflect.String:
-		v.SetString(s)
+		// a copy: data is the caller's (pooled) buffer and s only a view of it
+		v.SetString(string(data))
 	case reflect.Bool:
 		bol, err := strconv.ParseBool(s)
 		if err != nil {
@@ -168,7 +169,10 @@ func parseProperType(data []byte, v reflect.Value) bool {
 		if v.Type().Elem().Kind() != reflect.Uint8 {
 			return false
 		}
-		v.SetBytes(data)
+		// a copy: data is the caller's (pooled) buffer
+		b := make([]byte, len(data))
+		copy(b, data)
+		v.SetBytes(b)
 	case reflect.Invalid:
 		return true
 	default:
